@@ -123,7 +123,7 @@ func init() {
 				case 14:
 					toks = append(toks, "G")
 				case 15:
-					toks = append(toks, []string{"S:", "S:3.100", "S:4.65535", "S:4.2147483647", "S:4.0", "S:2.0", "S:2.2", "S:5.16384", "S:5.100", "S:1.4096;1.4096", "S:8.1", "S:8.5", "S:65000.7"}[r.intn(13)])
+					toks = append(toks, []string{"S:", "S:3.100", "S:4.65535", "S:4.2147483647", "S:4.0", "S:2.0", "S:2.2", "S:5.16384", "S:5.100", "S:5.16777215", "S:5.16777216", "S:5.16383", "S:1.4096;1.4096", "S:8.1", "S:8.5", "S:65000.7"}[r.intn(16)])
 				case 16:
 					toks = append(toks, "A")
 				case 17:
